@@ -294,8 +294,14 @@ sexp sexp_arithmetic_shift (sexp ctx, sexp self, sexp_sint_t n, sexp i, sexp cou
               tmp = sexp_bignum_data(i)[j+offset]
                 << (sizeof(sexp_uint_t)*CHAR_BIT-bit_shift);
           }
-          if (sexp_bignum_sign(res) < 0)
-            res = sexp_bignum_fxadd(ctx, res, 1);
+          /* floor: round the magnitude up iff a non-zero bit was shifted */
+          /* out (tmp holds the bits dropped from the lowest kept word) */
+          if (sexp_bignum_sign(res) < 0) {
+            for (j=0; j<offset && !tmp; j++)
+              tmp = sexp_bignum_data(i)[j];
+            if (tmp)
+              res = sexp_bignum_fxadd(ctx, res, 1);
+          }
         }
       }
     } else {
